@@ -24,7 +24,7 @@ import time
 import numpy as np
 
 from ..oblig import GOb, Obligation, Verdict, PROVED, REFUTED, _native_backend, NumNS, concretize_args
-from ..symint import atom, EngineError
+from ..symint import atom, EngineError, sprod
 from ..loopcut import LoopCut
 from ..iterative import stubbed, make_svd_stub
 from .. import gtensor as G
@@ -363,6 +363,50 @@ def obligations(tier):
             return dict(out=out, svd_calls=rec)
         add("decomposition._tucker:initialize_tucker", f"N={N},init=svd,svd=randomized_svd", cp_setup(N), it_svd, "any", dict(order=N, init="svd", svd="randomized_svd"),
             "the generator reaches the randomized SVD", extra_post=svd_threading_post, assumptions=lambda I: [r <= n for r, n in zip(I["r"], I["n"])])
+    # SVD initialisation with a rank exceeding the size of mode 0: the padding columns are drawn from the generator derived from random_state
+    for N in range(2, maxN + 1):
+        def pad_call(I, rs):
+            S = I["_S"]
+            inner = make_svd_stub(S, None)
+            def stub(matrix, n_eigenvecs=None, **kw):
+                if S.name == "sym" and bool(G.SInt.lift(matrix.shape[0]) < n_eigenvecs):
+                    return inner(matrix, n_eigenvecs=matrix.shape[0], **kw)
+                return inner(matrix, n_eigenvecs=n_eigenvecs, **kw)
+            with stubbed(_cp, svd_interface=stub):
+                kt = _cp.initialize_cp(I["X"], I["R"], init="svd", random_state=rs)
+            return (kt.weights, list(kt.factors))
+        add("decomposition._cp:initialize_cp", f"N={N},init=svd,rank > size of mode 0 (random padding)", cp_setup(N), pad_call, "some", dict(order=N, init="svd", rank="exceeds mode 0"),
+            "draws only from the generator derived from random_state",
+            assumptions=lambda I: [I["n"][0] < I["R"]] + [I["R"] <= nk for nk in I["n"][1:]] + [I["n"][0] <= sprod(I["n"][1:])])
+    # regressors: the weights are initialised from the generator derived from the estimator's random_state; the fitting sweeps draw nothing
+    import tensorly.regression.cp_regression as cpr
+    import tensorly.regression.tucker_regression as tkr
+    ns_ = atom("ns")
+    for N in (2, 3):
+        for target in ("scalar", "vector"):
+            def rg_setup(S, N=N, target=target):
+                n = dims(N)
+                return dict(_S=S, n=n, X=S.input("X", [ns_] + n), y=S.input("y", [ns_] + ([atom("m")] if target == "vector" else [])), R=R, r=dims(N, "r"))
+            def cp_fit(I, rs):
+                est = cpr.CPRegressor(weight_rank=I["R"], random_state=rs, verbose=0, n_iter_max=3)
+                cut = LoopCut(cpr.CPRegressor.fit)
+                st = cut.prefix(est, I["X"], I["y"])
+                kind, st2 = cut.body(st, 0)
+                if kind != "return":
+                    cut.suffix(st2)
+                return None
+            add("regression.cp_regression:CPRegressor.fit", f"X-order={N + 1},{target} target", rg_setup, cp_fit, "some", dict(x_order=N + 1, target=target),
+                "the weights are drawn from the generator derived from random_state; the sweep draws nothing")
+        def tk_fit(I, rs):
+            est = tkr.TuckerRegressor(weight_ranks=list(I["r"]), random_state=rs, verbose=0, n_iter_max=3)
+            cut = LoopCut(tkr.TuckerRegressor.fit)
+            st = cut.prefix(est, I["X"], I["y"])
+            kind, st2 = cut.body(st, 0)
+            if kind != "return":
+                cut.suffix(st2)
+            return None
+        add("regression.tucker_regression:TuckerRegressor.fit", f"X-order={N + 1}", lambda S, N=N: dict(_S=S, n=dims(N), X=S.input("X", [ns_] + dims(N)), y=S.input("y", [ns_]), R=R, r=dims(N, "r")), tk_fit, "some",
+            dict(x_order=N + 1), "the weights are drawn from the generator derived from random_state; the sweep draws nothing")
     # PARAFAC2 initialiser
     for nI in (2, 3):
         def p2_setup(S, nI=nI):
@@ -408,7 +452,7 @@ def obligations(tier):
     for mod in ("c06", "c08"):
         m = importlib.import_module(f"vt.props.{mod}")
         for ob in m.obligations(tier):
-            if type(ob) is not GOb or ob.raises is not None or "n_iter_max=0" in ob.name or "zero budget" in ob.name:
+            if type(ob) is not GOb or ob.raises is not None or "n_iter_max=0" in ob.name or "zero budget" in ob.name or ":initialize_" in ob.function:
                 continue  # (whole-function zero-budget call sites are not loop cuts: random_state cannot be injected there)
             try:
                 f = resolve(ob.function)
